@@ -190,6 +190,33 @@ impl Caps {
     }
 }
 
+thread_local! {
+    /// property under evaluation and protocol line of the case being run (also announced with
+    /// `set_case`, so that a process abort names it)
+    static NOTE: std::cell::RefCell<(String, String)> = std::cell::RefCell::new((String::new(), String::new()));
+}
+
+/// announce the case about to be run against the real code
+fn note(prop: &str, line: &str) {
+    set_case(line);
+    NOTE.with(|n| {
+        let mut n = n.borrow_mut();
+        n.0.clear();
+        n.0.push_str(prop);
+        n.1.clear();
+        n.1.push_str(line);
+    });
+}
+
+/// a panic in a call where the property promises a result (encode of an in-support symbol, seal,
+/// size queries, decode of the encoder's own words, …) is a failure of that property
+fn panic_fail(rep: &mut Report, caps: &mut Caps, tag: &str, class: &str) {
+    let (prop, line) = NOTE.with(|n| n.borrow().clone());
+    let prop = if prop.is_empty() { "C02".to_string() } else { prop };
+    caps.fail(rep, &prop, tag, format!("{} => {} in a call into the crate that must return a result", line, class));
+    rep.count(&format!("oracle.caught_panic.{}", tag));
+}
+
 fn dec_remaining<C: RangeCombo>(d: &Dec<C>) -> usize {
     let (cursor, _, _) = d.clone().into_raw_parts();
     BoundedReadWords::<C::W, Queue>::remaining(&cursor)
@@ -229,6 +256,7 @@ fn oracle_combo<C: RangeCombo>(rng: &mut Rng, w: u32, s: u32, bps: &[(u32, Vec<u
     let mut d3_reported = 0usize;
     let mut caps = Caps::new();
     for _ in 0..iters {
+        let res = guarded(|| {
         // ---------------- build a message, inspecting one coder and leaving its twin alone ----
         let prefix: Vec<u128> = if rng.chance(1, 5) { { let k = 1 + (rng.next() % 3) as usize; gen_words(rng, w, k) } } else { vec![] };
         let mk = |prefix: &Vec<u128>| -> Enc<C> {
@@ -276,6 +304,7 @@ fn oracle_combo<C: RangeCombo>(rng: &mut Rng, w: u32, s: u32, bps: &[(u32, Vec<u
         let mut inverted_steps = 0usize;
         for step in 0..=n {
             // --- at every symbol boundary: snapshot (C07), size queries (C18, C12), sometimes views (C08)
+            note("C02", &desc);
             let (_, _, inv) = enc_view::<C>(&coder);
             if inv {
                 inverted_steps += 1;
@@ -309,6 +338,7 @@ fn oracle_combo<C: RangeCombo>(rng: &mut Rng, w: u32, s: u32, bps: &[(u32, Vec<u
             if (peek_now || rng.chance(1, 3)) && !diverged {
                 rep.eval("C08");
                 let kind = if peek_now { (rng.next() % 2) * 2 } else { rng.next() % 4 };
+                NOTE.with(|n| n.borrow_mut().0 = "C08".into());
                 let mut temp_dec_err: Option<String> = None;
                 let shown_r = guarded(|| -> Vec<u128> {
                     match kind {
@@ -456,7 +486,7 @@ fn oracle_combo<C: RangeCombo>(rng: &mut Rng, w: u32, s: u32, bps: &[(u32, Vec<u
             }
         }
         if broken {
-            continue;
+            return;
         }
         rep.count(&format!("hist.{}", tag));
         if inverted_steps > 0 {
@@ -496,6 +526,7 @@ fn oracle_combo<C: RangeCombo>(rng: &mut Rng, w: u32, s: u32, bps: &[(u32, Vec<u
             }
             rep.count(&format!("final.{}.{}", tag, word_relation(lo, r, w, s)));
         }
+        note("C02", &format!("{} | pos | export", desc));
         let final_snap = coder.pos();
         let sealed_w: Vec<C::W> = coder.into_compressed().unwrap();
         let sealed = unwords(&sealed_w);
@@ -518,6 +549,7 @@ fn oracle_combo<C: RangeCombo>(rng: &mut Rng, w: u32, s: u32, bps: &[(u32, Vec<u
         rep.count(&format!("seal.words.{}", payload.len().saturating_sub(snaps.last().unwrap().0 - prefix.len())));
 
         // ---------------- C02: round trip ----------------
+        note("C02", &format!("{} | export | intodec{} | exhausted", rt, msg_decs(&msg)));
         rep.eval("C02");
         if msg.is_empty() && !payload.is_empty() {
             caps.fail(rep, "C02", &tag, format!("{} | export => empty message produced words {}", plain, show_list(payload.clone())));
@@ -538,7 +570,7 @@ fn oracle_combo<C: RangeCombo>(rng: &mut Rng, w: u32, s: u32, bps: &[(u32, Vec<u
             }
         }
         if !ok || diverged {
-            continue;
+            return;
         }
         rep.eval("C18");
         if !d.maybe_exhausted() {
@@ -548,6 +580,7 @@ fn oracle_combo<C: RangeCombo>(rng: &mut Rng, w: u32, s: u32, bps: &[(u32, Vec<u
 
         // ---------------- C07: random access ----------------
         {
+            note("C07", &format!("{} | intodec | seekto …", desc_with_snaps(&head, &msg)));
             // owned, and borrowed backends, full data (prefix included: positions count it)
             let mut owned: Dec<C> = RangeDecoder::from_compressed(sealed_w.clone()).unwrap();
             let mut borrowed = RangeDecoder::<C::W, C::S, Cursor<C::W, &[C::W]>>::from_compressed(&sealed_w[..]).unwrap();
@@ -619,7 +652,8 @@ fn oracle_combo<C: RangeCombo>(rng: &mut Rng, w: u32, s: u32, bps: &[(u32, Vec<u
                 let (second, _) = gen_valid_stream::<C>(rng, w, s, bps, 6);
                 suffixes.push((second, " (a second sealed message)"));
             }
-            for (suffix, note) in suffixes {
+            for (suffix, note_txt) in suffixes {
+                note("C11", &format!("{} | export ; suffix {}", plain_new, show_list(suffix.clone())));
                 rep.eval("C11");
                 let mut data = payload.clone();
                 data.extend(suffix.iter().copied());
@@ -628,7 +662,7 @@ fn oracle_combo<C: RangeCombo>(rng: &mut Rng, w: u32, s: u32, bps: &[(u32, Vec<u
                     rep.count(&format!("C11.failures.{}.d3-condition={}", tag, d3_condition));
                     if s == 2 * w || d3_condition == "no" || d3_reported < 4 {
                         d3_reported += 1;
-                        rep.fail("C11", format!("{} | export => {} ; suffix {}{} ; decoding sealed++suffix with{} => {} d3-condition={}", plain_new, show_list(payload.clone()), show_list(suffix.clone()), note, msg_decs(&msg), t, d3_condition));
+                        rep.fail("C11", format!("{} | export => {} ; suffix {}{} ; decoding sealed++suffix with{} => {} d3-condition={}", plain_new, show_list(payload.clone()), show_list(suffix.clone()), note_txt, msg_decs(&msg), t, d3_condition));
                     }
                     break;
                 }
@@ -664,6 +698,7 @@ fn oracle_combo<C: RangeCombo>(rng: &mut Rng, w: u32, s: u32, bps: &[(u32, Vec<u
                 let (b, p) = pick_bp(rng, bps);
                 let (b, p, cdf) = if rng.chance(1, 2) { (b, p, gen_cdf(rng, p)) } else { rng.pick(&pool).clone() };
                 d10.push_str(&format!(" | dec {:x} {:x} {}", b, p, show_list(cdf.clone())));
+                note("C10", &d10);
                 rep.eval("C10");
                 rep.eval("C20"); // a std UB precondition check would abort the process here
                 match guarded(|| C::dec(&mut d, b, p, &cdf).unwrap()) {
@@ -700,6 +735,7 @@ fn oracle_combo<C: RangeCombo>(rng: &mut Rng, w: u32, s: u32, bps: &[(u32, Vec<u
             if let Some(st) = mk_state::<C>(lo, r) {
                 let mut e: Enc<C> = RangeEncoder::from_raw_parts(words::<C::W>(&parse_list(toks[1]).unwrap()), st, mk_sit::<C>(n, f));
                 let d20 = format!("range {:x} {:x} | {}", w, s, init);
+                note("C20", &format!("{} | (steered encodes, getc, nw, decoder)", d20));
                 for _ in 0..(rng.next() % 6) {
                     let (b, p) = pick_bp(rng, bps);
                     let (cdf, sym) = steer::<C>(rng, &e, w, s, p, &pool, b);
@@ -727,6 +763,7 @@ fn oracle_combo<C: RangeCombo>(rng: &mut Rng, w: u32, s: u32, bps: &[(u32, Vec<u
             let point = rng.bits_biased(s);
             let data = gen_words(rng, w, 3);
             if let Some(st) = mk_state::<C>(lower, range) {
+                note("C20", &format!("rangedec {:x} {:x} | rawdec {} 0 {:x} {:x} {:x} | dec …", w, s, show_list(data.clone()), lower, range, point));
                 let cursor = Cursor::new_at_pos(words::<C::W>(&data), (rng.next() % 4) as usize).unwrap();
                 if let Ok(mut d) = RangeDecoder::<C::W, C::S, _>::from_raw_parts(cursor, st, from_u128::<C::S>(point)) {
                     for _ in 0..4 {
@@ -744,6 +781,10 @@ fn oracle_combo<C: RangeCombo>(rng: &mut Rng, w: u32, s: u32, bps: &[(u32, Vec<u
                 }
             }
         }
+        });
+        if let Err(class) = res {
+            panic_fail(rep, &mut caps, &tag, class);
+        }
     }
 }
 
@@ -759,6 +800,7 @@ fn adversarial_combo<C: RangeCombo>(rng: &mut Rng, w: u32, s: u32, bps: &[(u32, 
     let u = 1u128 << (s - w);
     let mut caps = Caps::new();
     for mi in 0..msgs {
+        let res = guarded(|| {
         let (b, p) = match mi % 3 {
             0 => { let (bb, ps) = bps.last().unwrap(); (*bb, *ps.last().unwrap()) } // P = W-ish
             1 => { let (bb, ps) = &bps[0]; (*bb, ps[0]) }                          // small P
@@ -787,7 +829,7 @@ fn adversarial_combo<C: RangeCombo>(rng: &mut Rng, w: u32, s: u32, bps: &[(u32, 
             _ => gen_cdf(rng, p),
         };
         if cdf.len() < 3 {
-            continue; // a one-symbol table is not a model
+            return; // a one-symbol table is not a model
         }
         let n = 200 + (rng.next() % 1801) as usize;
         let head = format!("range {:x} {:x} | new", w, s);
@@ -798,6 +840,7 @@ fn adversarial_combo<C: RangeCombo>(rng: &mut Rng, w: u32, s: u32, bps: &[(u32, 
         let mut max_held = 0usize;
         let mut renorms_while_inverted = 0usize;
         let mut failed = false;
+        note("C12", &format!("{} | ({:x} symbols of table {} at B={:x} P={:x}, each containing the next word boundary)", head, n, show_list(cdf.clone()), b, p));
         let replay = |syms: &Vec<usize>, cdf: &Vec<u128>| -> String {
             let mut t = head.clone();
             for &sy in syms {
@@ -819,9 +862,13 @@ fn adversarial_combo<C: RangeCombo>(rng: &mut Rng, w: u32, s: u32, bps: &[(u32, 
             }
             let held_before = coder.pos().0 - coder.bulk().len();
             let words_before = coder.pos().0;
+            syms.push(sym);
+            if step % 16 == 0 {
+                // (re-announced every 16 symbols: building the line is linear in its length)
+                note("C12", &format!("{} | nb | nw | export", replay(&syms, &cdf)));
+            }
             let o = guarded(|| C::enc_sym(&mut coder, b, p, &cdf, sym).unwrap());
             rep.eval("C02");
-            syms.push(sym);
             if o != Ok("ok".to_string()) {
                 caps.fail(rep, "C02", &tag, format!("{} => encoding an in-support symbol returned {:?}", replay(&syms, &cdf), o));
                 failed = true;
@@ -862,9 +909,10 @@ fn adversarial_combo<C: RangeCombo>(rng: &mut Rng, w: u32, s: u32, bps: &[(u32, 
             rep.count(&format!("C12.adversarial.{}.messages_with_inverted_renorm", tag));
         }
         if failed {
-            continue;
+            return;
         }
         // round trip
+        note("C02", &format!("{} | export | intodec | {:x} × dec {:x} {:x} {}", replay(&syms, &cdf), syms.len(), b, p, show_list(cdf.clone())));
         let sealed = coder.into_compressed().unwrap();
         let mut d: Dec<C> = RangeDecoder::from_compressed(sealed).unwrap();
         rep.eval("C02");
@@ -880,6 +928,10 @@ fn adversarial_combo<C: RangeCombo>(rng: &mut Rng, w: u32, s: u32, bps: &[(u32, 
             caps.fail(rep, "C02", &tag, format!("{} | intodec | … | exhausted => false after the last symbol", replay(&syms, &cdf)));
         }
         rep.sample("C12", || format!("adversarial: {} symbols at B={:x} P={:x} table {} on {}: up to {} words held back", n, b, p, show_list(cdf.clone()), tag, max_held));
+        });
+        if let Err(class) = res {
+            panic_fail(rep, &mut caps, &tag, class);
+        }
     }
 }
 
@@ -924,12 +976,14 @@ fn repeated_symbol_combo<C: RangeCombo>(rng: &mut Rng, w: u32, s: u32, bps: &[(u
         let k = (s - w - p) as f64;
         let per_symbol_allow = |q: u128| (p as f64) - (q as f64).log2() + (1.0 + (-k).exp2()).log2();
         for &q in &qs {
-            if q >= total { continue; }
+            let res = guarded(|| {
+            if q >= total { return; }
             // the symbol [cum, cum + q): first, last or in the middle of the table
             let cum = match rng.next() % 3 { 0 => 0, 1 => total - q, _ => rng.below(total - q + 1) };
             let (cdf, sym) = cdf_around(p, cum, cum + q);
             let prob = cdf[sym + 1] - cdf[sym];
             let mut coder: Enc<C> = RangeEncoder::new();
+            note("C12", &format!("range {:x} {:x} | new | {:x} × (enc {:x} {:x} {:x} {:x}) | nb", w, s, n, b, p, cdf[sym], prob));
             let allow = per_symbol_allow(prob);
             rep.eval("C12");
             let mut suspicious: Option<usize> = None;
@@ -963,6 +1017,10 @@ fn repeated_symbol_combo<C: RangeCombo>(rng: &mut Rng, w: u32, s: u32, bps: &[(u
                 }
             }
             rep.count(&format!("C12.repeated.{}.messages", tag));
+            });
+            if let Err(class) = res {
+                panic_fail(rep, &mut caps, &tag, class);
+            }
         }
     }
     // how close the worst message came to the bound (bits of slack left, bucketed)
@@ -989,6 +1047,7 @@ fn batch_decode_phase<C: RangeCombo, Bk>(
     let mut line = desc.to_string();
     for (b, p, cdf, form, n, err_at) in plan {
         line.push_str(&format!(" | decs {:x} {:x} {:x} {} {:x} {}", b, p, form, show_list(cdf.clone()), n, err_at.map(|j| hex(j as u128)).unwrap_or("-".into())));
+        note("C02", &line);
         let got = guarded(|| C::dec_batch(&mut d, *b, *p, *form, cdf, *n, *err_at).unwrap());
         // the caller's loop
         let mut out: Vec<u128> = Vec::new();
@@ -1041,6 +1100,7 @@ fn batch_combo<C: RangeCombo>(rng: &mut Rng, w: u32, s: u32, bps: &[(u32, Vec<u3
     let tag = format!("{}x{}", w, s);
     let mut caps = Caps::new();
     for _ in 0..iters {
+        let res = guarded(|| {
         let mut coder: Enc<C> = RangeEncoder::new();
         let mut twin: Enc<C> = RangeEncoder::new();
         let mut desc = format!("range {:x} {:x} | new", w, s);
@@ -1062,6 +1122,7 @@ fn batch_combo<C: RangeCombo>(rng: &mut Rng, w: u32, s: u32, bps: &[(u32, Vec<u3
                 }
             }
             desc.push_str(&format!(" | encs {:x} {:x} {:x} {} {} {}", b, p, form, show_list(cdf.clone()), show_list(syms.iter().map(|&x| x as u128).collect::<Vec<_>>()), err_at.map(|j| hex(j as u128)).unwrap_or("-".into())));
+            note("C02", &format!("{} | raw", desc));
             let got = guarded(|| C::enc_batch(&mut coder, b, p, form, &cdf, &syms, err_at).unwrap());
             // the caller's loop on the twin
             let mut expected = "ok".to_string();
@@ -1103,7 +1164,7 @@ fn batch_combo<C: RangeCombo>(rng: &mut Rng, w: u32, s: u32, bps: &[(u32, Vec<u3
             }
         }
         if !ok {
-            continue;
+            return;
         }
         // trait forms of the fullness query
         rep.eval("C18");
@@ -1128,6 +1189,7 @@ fn batch_combo<C: RangeCombo>(rng: &mut Rng, w: u32, s: u32, bps: &[(u32, Vec<u3
                 }
             }
         }
+        note("C02", &format!("{} | export | intodec", desc));
         let sealed_twin = export::<C>(&twin);
         // the decoder comes from `IntoDecoder::into_decoder` (trait form), the inherent
         // `into_decoder`, or `for_compressed` on a borrowed buffer
@@ -1153,6 +1215,10 @@ fn batch_combo<C: RangeCombo>(rng: &mut Rng, w: u32, s: u32, bps: &[(u32, Vec<u3
             }
         }
         rep.sample("C09", || desc.clone());
+        });
+        if let Err(class) = res {
+            panic_fail(rep, &mut caps, &tag, class);
+        }
     }
 }
 
@@ -1164,6 +1230,7 @@ fn clear_combo<C: RangeCombo>(rng: &mut Rng, w: u32, s: u32, bps: &[(u32, Vec<u3
     let tag = format!("{}x{}", w, s);
     let mut caps = Caps::new();
     for _ in 0..iters {
+        let res = guarded(|| {
         let mut coder: Enc<C> = RangeEncoder::new();
         let mut ops = Vec::new();
         if rng.chance(3, 4) {
@@ -1178,6 +1245,7 @@ fn clear_combo<C: RangeCombo>(rng: &mut Rng, w: u32, s: u32, bps: &[(u32, Vec<u3
             }
         }
         let mut desc = format!("range {:x} {:x} | new{}", w, s, msg_ops(&ops));
+        note("C02", &format!("{} | clear | empty | nw | nb | getc", desc));
         let inv = enc_view::<C>(&coder).2;
         rep.count(&format!("C02.clear.{}.{}", if inv { "while_inverted" } else { "while_normal" }, tag));
         coder.clear();
@@ -1201,6 +1269,7 @@ fn clear_combo<C: RangeCombo>(rng: &mut Rng, w: u32, s: u32, bps: &[(u32, Vec<u3
             let (b, p) = pick_bp(rng, bps);
             let (cdf, sym) = steer::<C>(rng, &fresh, w, s, p, &[], b);
             desc.push_str(&format!(" | enc {:x} {:x} {:x} {:x}", b, p, cdf[sym], cdf[sym + 1] - cdf[sym]));
+            note("C02", &format!("{} | raw | export | spec", desc));
             let o1 = guarded(|| C::enc_sym(&mut coder, b, p, &cdf, sym).unwrap());
             let o2 = C::enc_sym(&mut fresh, b, p, &cdf, sym).unwrap();
             reference.step(w, s, p, cdf[sym], cdf[sym + 1] - cdf[sym]);
@@ -1213,7 +1282,7 @@ fn clear_combo<C: RangeCombo>(rng: &mut Rng, w: u32, s: u32, bps: &[(u32, Vec<u3
             msg.push((b, p, cdf, sym));
         }
         if !ok {
-            continue;
+            return;
         }
         rep.eval("C02");
         rep.eval("C06");
@@ -1240,6 +1309,299 @@ fn clear_combo<C: RangeCombo>(rng: &mut Rng, w: u32, s: u32, bps: &[(u32, Vec<u3
                 Err(t) => caps.fail(rep, "C02", &tag, format!("{} | intodec{} => {}", desc, msg_decs(&msg), t)),
             }
         }
+        });
+        if let Err(class) = res {
+            panic_fail(rep, &mut caps, &tag, class);
+        }
+    }
+}
+
+/// outcome of replaying a message into an encoder over some sink: the words the sink holds
+/// after sealing, or the step at which the sink refused a word (with the words it took so far)
+enum SinkRun {
+    Sealed(Vec<u128>),
+    Refused { at: String, words: Vec<u128> },
+    Panicked(&'static str),
+}
+
+/// C11 / C02 / C06 / C09: encoder sinks other than `Vec`.  The same message (its final state
+/// steered onto the word-boundary classes, so that the zero padding word is needed often) is
+/// encoded into a `Vec`, into `Cursor<Word, Vec<Word>>` with spare room / exactly enough room /
+/// one word too little, into `Cursor<Word, &mut [Word]>`, and into the fallible and infallible
+/// callback sinks.  The sealed words must be those of the `Vec` sink and of the reference coder,
+/// must survive arbitrary suffixes and back-to-back storage in one cursor (where the documented
+/// weakness D3 does not apply), and a sink that refuses a word must produce a clean error with
+/// the words accepted so far being a prefix of the right ones.
+fn sink_combo<C: RangeCombo>(rng: &mut Rng, w: u32, s: u32, bps: &[(u32, Vec<u32>)], iters: usize, rep: &mut Report) {
+    use constriction::backends::{FallibleCallbackWriteWords, InfallibleCallbackWriteWords};
+    let tag = format!("{}x{}", w, s);
+    let mut caps = Caps::new();
+    let mw = mask(w);
+    for _ in 0..iters {
+        let res = guarded(|| {
+            // ---- the message, built on a Vec-backed encoder ----
+            let mut vref: Enc<C> = RangeEncoder::new();
+            let mut reference = RefCoder::new(s);
+            let mut msg: Vec<(u32, u32, Vec<u128>, usize)> = Vec::new();
+            let n = 2 + (rng.next() % 10) as usize;
+            // half of the messages aim at final states that need the zero padding word
+            let want = if rng.chance(1, 2) { *rng.pick(&["2words&up=-1", "2words&up=-2", "2words&up=1", "2words&up=2"]) } else { pick_hunt_class(rng, w, s) };
+            let head = format!("range {:x} {:x} | new", w, s);
+            note("C02", &format!("{} | (steered message)", head));
+            for step in 0..n {
+                let (bl, pl) = { let (bb, ps) = bps.last().unwrap(); (*bb, *ps.last().unwrap()) };
+                let (b, p, cdf, sym) = if step + 2 == n {
+                    let (cdf, sym) = hunt_prep::<C>(rng, &vref, w, s, bl, pl, &[], want);
+                    (bl, pl, cdf, sym)
+                } else if step + 1 == n {
+                    match hunt_final::<C>(rng, &vref, w, s, bl, pl, 32, want) {
+                        Some((cdf, sym, _)) => (bl, pl, cdf, sym),
+                        None => { let (cdf, sym) = steer::<C>(rng, &vref, w, s, pl, &[], bl); (bl, pl, cdf, sym) }
+                    }
+                } else {
+                    let (b, p) = pick_bp(rng, bps);
+                    let (cdf, sym) = steer::<C>(rng, &vref, w, s, p, &[], b);
+                    (b, p, cdf, sym)
+                };
+                if C::enc_sym(&mut vref, b, p, &cdf, sym).unwrap() != "ok" {
+                    return;
+                }
+                reference.step(w, s, p, cdf[sym], cdf[sym + 1] - cdf[sym]);
+                msg.push((b, p, cdf, sym));
+            }
+            let plain = format!("{}{}", head, msg_ops(&msg));
+            note("C02", &format!("{} | export", plain));
+            // final state: padding word needed? documented weakness applicable?
+            let (lo, r, _) = enc_view::<C>(&vref);
+            let m = mask(s);
+            let u = pow2(s - w);
+            let up = lo.wrapping_add(r) & m;
+            let pw = (lo.wrapping_add(u - 1) & m) >> (s - w);
+            let padding = pw == up >> (s - w);
+            let d3 = s > 2 * w && padding && (up & (u - 1)) < pow2(s - 2 * w);
+            let want_words = export::<C>(&vref);
+            let pad_tag = if padding { "padding_yes" } else { "padding_no" };
+            let len = want_words.len();
+            let check_sealed = |kind: &str, got: &SinkRun, rep: &mut Report, caps: &mut Caps| -> bool {
+                rep.eval("C02");
+                rep.eval("C06");
+                rep.eval("C11");
+                rep.count(&format!("sink.{}.{}.{}", kind, tag, pad_tag));
+                match got {
+                    SinkRun::Sealed(ws) if *ws == want_words => true,
+                    SinkRun::Sealed(ws) => {
+                        let text = format!("{} | export => sink `{}` holds {} after sealing, a Vec sink (and the reference coder) {}", plain, kind, show_list(ws.clone()), show_list(want_words.clone()));
+                        caps.fail(rep, "C02", &tag, text.clone());
+                        caps.fail(rep, "C06", &tag, text.clone());
+                        caps.fail(rep, "C11", &tag, format!("{} ; suffix: none yet (the sealed words themselves differ, padding word {}) d3-condition={}", text, if padding { "needed" } else { "not needed" }, if d3 { "yes" } else { "no" }));
+                        false
+                    }
+                    SinkRun::Refused { at, words } => {
+                        caps.fail(rep, "C09", &tag, format!("{} | export => sink `{}` with enough room refused a word: {} (holds {})", plain, kind, at, show_list(words.clone())));
+                        false
+                    }
+                    SinkRun::Panicked(class) => {
+                        caps.fail(rep, "C02", &tag, format!("{} | export => sink `{}`: {}", plain, kind, class));
+                        false
+                    }
+                }
+            };
+            if want_words != reference.words(w, s) {
+                caps.fail(rep, "C06", &tag, format!("{} | export => {} but the reference coder gives {}", plain, show_list(want_words.clone()), show_list(reference.words(w, s))));
+            }
+            // ---- helper: seal through raw parts so that a refusing sink can still be inspected ----
+            // (`into_compressed` drops the sink on error)
+            macro_rules! run_cursor_vec {
+                ($cap:expr) => {{
+                    let cap: usize = $cap;
+                    let r = guarded(|| {
+                        let mut e = RangeEncoder::<C::W, C::S, Cursor<C::W, Vec<C::W>>>::with_backend(Cursor::new_at_write_beginning(vec![from_u128::<C::W>(0x5a & mw); cap]));
+                        for (i, (b, p, cdf, sym)) in msg.iter().enumerate() {
+                            let o = C::enc_sym_any(&mut e, *b, *p, cdf, *sym).unwrap();
+                            if o != "ok" {
+                                let (bk, _, _) = e.into_raw_parts();
+                                let (buf, pos) = bk.into_buf_and_pos();
+                                return SinkRun::Refused { at: format!("encode of symbol {:x} returned {}", i, o), words: unwords(&buf[..pos]) };
+                            }
+                        }
+                        match e.into_compressed() {
+                            Ok(bk) => {
+                                let (buf, pos) = bk.into_buf_and_pos();
+                                SinkRun::Sealed(unwords(&buf[..pos]))
+                            }
+                            Err(_) => SinkRun::Refused { at: "sealing returned OutOfSpace".into(), words: vec![] },
+                        }
+                    });
+                    r.unwrap_or_else(SinkRun::Panicked)
+                }};
+            }
+            // Cursor<Vec> with spare room and with exactly enough room
+            let spare = run_cursor_vec!(len + 1 + (rng.next() % 8) as usize);
+            let ok_spare = check_sealed("cursor_vec_spare", &spare, rep, &mut caps);
+            let exact = run_cursor_vec!(len);
+            check_sealed("cursor_vec_exact", &exact, rep, &mut caps);
+            // one word too little: a clean refusal, words so far a prefix of the right ones
+            if len > 0 {
+                rep.eval("C09");
+                rep.count(&format!("sink.cursor_vec_short.{}.{}", tag, pad_tag));
+                match run_cursor_vec!(len - 1) {
+                    SinkRun::Refused { at, words } => {
+                        if !words.is_empty() && words[..] != want_words[..words.len().min(want_words.len())] {
+                            caps.fail(rep, "C09", &tag, format!("{} | export => a cursor sink of {:x} words refused cleanly ({}) but holds {} which is not a prefix of {}", plain, len - 1, at, show_list(words), show_list(want_words.clone())));
+                        }
+                    }
+                    SinkRun::Sealed(ws) => {
+                        let text = format!("{} | export => a cursor sink with room for only {:x} words accepted the message as {} (a Vec sink gives {})", plain, len - 1, show_list(ws), show_list(want_words.clone()));
+                        caps.fail(rep, "C09", &tag, text.clone());
+                        caps.fail(rep, "C11", &tag, format!("{} ; suffix: n/a d3-condition={}", text, if d3 { "yes" } else { "no" }));
+                    }
+                    SinkRun::Panicked(class) => caps.fail(rep, "C09", &tag, format!("{} | export => a cursor sink of {:x} words: {} instead of an error", plain, len - 1, class)),
+                }
+            }
+            // Cursor<&mut [Word]>
+            {
+                let mut buf: Vec<C::W> = vec![from_u128::<C::W>(0xa5 & mw); len + 3];
+                let r = guarded(|| {
+                    let mut e = RangeEncoder::<C::W, C::S, Cursor<C::W, &mut [C::W]>>::with_backend(Cursor::new_at_write_beginning(&mut buf[..]));
+                    for (i, (b, p, cdf, sym)) in msg.iter().enumerate() {
+                        let o = C::enc_sym_any(&mut e, *b, *p, cdf, *sym).unwrap();
+                        if o != "ok" {
+                            return Err(format!("encode of symbol {:x} returned {}", i, o));
+                        }
+                    }
+                    match e.into_compressed() {
+                        Ok(bk) => Ok(bk.into_buf_and_pos().1),
+                        Err(_) => Err("sealing returned OutOfSpace".into()),
+                    }
+                });
+                let got = match r {
+                    Ok(Ok(pos)) => SinkRun::Sealed(unwords(&buf[..pos])),
+                    Ok(Err(at)) => SinkRun::Refused { at, words: vec![] },
+                    Err(class) => SinkRun::Panicked(class),
+                };
+                check_sealed("cursor_mut_slice", &got, rep, &mut caps);
+            }
+            // callback sinks collecting into a Vec
+            {
+                let mut collected: Vec<C::W> = Vec::new();
+                let r = guarded(|| {
+                    let mut e = RangeEncoder::<C::W, C::S, _>::with_backend(FallibleCallbackWriteWords::new(|x: C::W| -> Result<(), ()> { collected.push(x); Ok(()) }));
+                    for (b, p, cdf, sym) in msg.iter() {
+                        if C::enc_sym_any(&mut e, *b, *p, cdf, *sym).unwrap() != "ok" {
+                            return Err("encode refused".to_string());
+                        }
+                    }
+                    e.into_compressed().map(|_| ()).map_err(|_| "sealing refused".to_string())
+                });
+                let got = match r {
+                    Ok(Ok(())) => SinkRun::Sealed(unwords(&collected)),
+                    Ok(Err(at)) => SinkRun::Refused { at, words: unwords(&collected) },
+                    Err(class) => SinkRun::Panicked(class),
+                };
+                check_sealed("fallible_callback", &got, rep, &mut caps);
+            }
+            {
+                let mut collected: Vec<C::W> = Vec::new();
+                let r = guarded(|| {
+                    let mut e = RangeEncoder::<C::W, C::S, _>::with_backend(InfallibleCallbackWriteWords::new(|x: C::W| collected.push(x)));
+                    for (b, p, cdf, sym) in msg.iter() {
+                        if C::enc_sym_any(&mut e, *b, *p, cdf, *sym).unwrap() != "ok" {
+                            return Err("encode refused".to_string());
+                        }
+                    }
+                    e.into_compressed().map(|_| ()).map_err(|_| "sealing refused".to_string())
+                });
+                let got = match r {
+                    Ok(Ok(())) => SinkRun::Sealed(unwords(&collected)),
+                    Ok(Err(at)) => SinkRun::Refused { at, words: unwords(&collected) },
+                    Err(class) => SinkRun::Panicked(class),
+                };
+                check_sealed("infallible_callback", &got, rep, &mut caps);
+            }
+            // a fallible callback that refuses the k-th word: clean error, prefix property (C09)
+            if len > 0 {
+                let k = rng.below(len as u128) as usize;
+                let mut collected: Vec<C::W> = Vec::new();
+                rep.eval("C09");
+                rep.count(&format!("sink.fallible_callback_refusing.{}.{}", tag, pad_tag));
+                let r = guarded(|| {
+                    let mut e = RangeEncoder::<C::W, C::S, _>::with_backend(FallibleCallbackWriteWords::new(|x: C::W| -> Result<(), ()> { if collected.len() == k { Err(()) } else { collected.push(x); Ok(()) } }));
+                    for (b, p, cdf, sym) in msg.iter() {
+                        if C::enc_sym_any(&mut e, *b, *p, cdf, *sym).unwrap() != "ok" {
+                            return true;
+                        }
+                    }
+                    e.into_compressed().is_err()
+                });
+                match r {
+                    Ok(true) => {
+                        if unwords(&collected)[..] != want_words[..k] {
+                            caps.fail(rep, "C09", &tag, format!("{} | export => a callback sink refusing word {:x} had been given {} before, not a prefix of {}", plain, k, show_list(unwords(&collected)), show_list(want_words.clone())));
+                        }
+                    }
+                    Ok(false) => caps.fail(rep, "C09", &tag, format!("{} | export => a callback sink refusing word {:x} was not reported as an error", plain, k)),
+                    Err(class) => caps.fail(rep, "C09", &tag, format!("{} | export => a callback sink refusing word {:x}: {} instead of an error", plain, k, class)),
+                }
+            }
+            // ---- C11 on the words a non-Vec sink holds: suffixes and back-to-back storage ----
+            let _ = ok_spare;
+            if let SinkRun::Sealed(ws) = &spare {
+                let k = 1 + (rng.next() % (s / w + 2) as u64) as usize;
+                let mut zero_ones = vec![mw; k + 1];
+                zero_ones[0] = 0;
+                let suffixes: Vec<Vec<u128>> = vec![vec![mw; k], vec![0; k], zero_ones, gen_words(rng, w, k)];
+                for suffix in suffixes {
+                    rep.eval("C11");
+                    let mut data = ws.clone();
+                    data.extend(suffix.iter().copied());
+                    note("C11", &format!("{} | export ; suffix {}", plain, show_list(suffix.clone())));
+                    let mut d: Dec<C> = RangeDecoder::from_compressed(words::<C::W>(&data)).unwrap();
+                    if let Err(t) = decode_expect::<C, _>(&mut d, &msg) {
+                        rep.count(&format!("C11.sink_failures.{}.d3-condition={}", tag, if d3 { "yes" } else { "no" }));
+                        if !d3 {
+                            caps.fail(rep, "C11", &tag, format!("{} | export => {} in a cursor sink ; suffix {} ; decoding sealed++suffix with{} => {} d3-condition=no", plain, show_list(ws.clone()), show_list(suffix.clone()), msg_decs(&msg), t));
+                        }
+                        break;
+                    }
+                }
+                // two messages back to back in one cursor
+                if !d3 {
+                    rep.eval("C11");
+                    let r = guarded(|| {
+                        let cap = 2 * len + 8;
+                        let mut e = RangeEncoder::<C::W, C::S, Cursor<C::W, Vec<C::W>>>::with_backend(Cursor::new_at_write_beginning(vec![from_u128::<C::W>(0); cap]));
+                        for (b, p, cdf, sym) in msg.iter() {
+                            C::enc_sym_any(&mut e, *b, *p, cdf, *sym).unwrap();
+                        }
+                        let cur = e.into_compressed().map_err(|_| ()).unwrap();
+                        let pos1 = cur.pos();
+                        // the second message (the same symbols again) right behind the first
+                        let mut e2 = RangeEncoder::<C::W, C::S, Cursor<C::W, Vec<C::W>>>::with_backend(cur);
+                        for (b, p, cdf, sym) in msg.iter() {
+                            C::enc_sym_any(&mut e2, *b, *p, cdf, *sym).unwrap();
+                        }
+                        let (buf, pos2) = e2.into_compressed().map_err(|_| ()).unwrap().into_buf_and_pos();
+                        (unwords(&buf[..pos2]), pos1)
+                    });
+                    note("C11", &format!("{} | export ; suffix = the same message sealed again right behind it in one cursor", plain));
+                    match r {
+                        Ok((all, pos1)) => {
+                            let mut d1: Dec<C> = RangeDecoder::from_compressed(words::<C::W>(&all)).unwrap();
+                            let r1 = decode_expect::<C, _>(&mut d1, &msg);
+                            let mut d2: Dec<C> = RangeDecoder::from_compressed(words::<C::W>(&all[pos1..])).unwrap();
+                            let r2 = decode_expect::<C, _>(&mut d2, &msg);
+                            if let Err(t) = r1.and(r2) {
+                                caps.fail(rep, "C11", &tag, format!("{} | export ; suffix = the same message sealed again right behind it in one cursor: buffer {} (second message starts at word {:x}) => {} d3-condition=no", plain, show_list(all), pos1, t));
+                            }
+                        }
+                        Err(class) => caps.fail(rep, "C11", &tag, format!("{} | export ; two messages back to back in one cursor => {} d3-condition=no", plain, class)),
+                    }
+                }
+            }
+        });
+        if let Err(class) = res {
+            panic_fail(rep, &mut caps, &tag, class);
+        }
     }
 }
 
@@ -1260,6 +1622,7 @@ fn all_classes<C: RangeCombo>(rng: &mut Rng, tier: &str, w: u32, s: u32, bps: &[
     oracle_combo::<C>(rng, w, s, bps, iters, rep);
     batch_combo::<C>(rng, w, s, bps, iters / 3, rep);
     clear_combo::<C>(rng, w, s, bps, iters / 3, rep);
+    sink_combo::<C>(rng, w, s, bps, iters / 4, rep);
     adversarial_combo::<C>(rng, w, s, bps, adv, rep);
     repeated_symbol_combo::<C>(rng, w, s, bps, nq, nrep, rep);
 }
